@@ -74,6 +74,10 @@ extern int mpt_convert_string(const char *from, MPT_TYPE(type) type, void *dest)
 		if ((len = mpt_convert_number(txt, type, dest)) < 0) {
 			return len;
 		}
+		/* white space only: nothing converted */
+		if (!len) {
+			return 0;
+		}
 		txt += len;
 		return txt - from;
 	}
